@@ -61,6 +61,8 @@ def run(tier, runner):
     ped = cfg(17, False, False)
     ndb = cfg(17, True, True)
     r_assert = config.assert_pure(base[17])
+    if getattr(r_assert, 'single_pass_sites', 0) < 1:
+        r_assert.require(10 ** 9, 'asserts inside functions instantiated with the single-pass iterator archetype (positive control of the consumed-range clause)')
     def by_name(xs, ys):
         yn = {p.unit.name: p for p in ys}
         return [(p, yn[p.unit.name]) for p in xs if p.unit.name in yn]
